@@ -228,6 +228,9 @@ def run(ck: core.Check):
         if r["sample"] and len(ck.samples) < 2:
             ck.samples.append(r["sample"])
         for b in r["bad"]:
+            if len(ck.violations) >= 2:
+                ck.violation(b["detail"].get("what", "sugared and desugared differ") + " (not shrunk)", {"rows": b["rows"], "detail": b["detail"], "pad": "#" * 4000})
+                continue
             rows, det = shrink(drv, b["rows"])
             det = det or b["detail"]
             try:
